@@ -50,6 +50,20 @@ def class_obj(mod, cname, name='cls'):
         if isinstance(st, _ast.FunctionDef) and any(isinstance(d, _ast.Name) and d.id == 'staticmethod' for d in st.decorator_list):
             static.add(st.name)
     o.__dict__['_static'] = static
+    # an instance starts with the containers its constructor creates empty (`self.x = {}` as a statement of __init__ itself): memo tables, registries
+    init = o.__dict__['_methods'].get('__init__')
+    if init is not None and init.args.args:
+        sname = init.args.args[0].arg
+        for st in init.body:
+            if isinstance(st, _ast.Assign) and len(st.targets) == 1 and isinstance(st.targets[0], _ast.Attribute) and isinstance(st.targets[0].value, _ast.Name) \
+                    and st.targets[0].value.id == sname:
+                v = st.value
+                if isinstance(v, _ast.Dict) and not v.keys:
+                    setattr(o, st.targets[0].attr, {})
+                elif isinstance(v, _ast.List) and not v.elts:
+                    setattr(o, st.targets[0].attr, [])
+                elif isinstance(v, _ast.Call) and isinstance(v.func, _ast.Name) and v.func.id in ('dict', 'list', 'set') and not v.args and not v.keywords:
+                    setattr(o, st.targets[0].attr, {'dict': dict, 'list': list, 'set': set}[v.func.id]())
     return o
 
 
